@@ -16,6 +16,9 @@
 //	        M<t>.<id>  deliver without waiting (burst; races with the machine)
 //	        F<t>.<id>.<n>  n copies of message id of type t (a repeating sender), each delivered to
 //	                   a quiescent machine
+//	        B<t>.<id>.<n>  busy flood: hold the receive loop inside Receive of message <id>, deliver
+//	                   ids id+1..id+n-1 of type t concurrently from the channel side (a correct handler
+//	                   blocks while recvChan is full), let the loop go, wait until all were consumed
 //	        i          let the blocking Initiate of the current state return
 //	        h / u      hold the receive loop inside its next Receive call / let it go
 //	        x          cancel the machine's context
@@ -31,7 +34,10 @@ import (
 	"context"
 	"errors"
 	"fmt"
+	"os"
+	"path/filepath"
 	"runtime"
+	"sort"
 	"strconv"
 	"strings"
 	"sync"
@@ -46,6 +52,9 @@ import (
 )
 
 const waitTimeout = 20 * time.Second
+
+// lostTimeout bounds the wait for the machine to consume a finished busy flood.
+const lostTimeout = 12 * time.Second
 
 var logger = func() log.StandardLogger {
 	l := log.Logger("verif-c15")
@@ -226,7 +235,9 @@ func (s *toyState) MemberIndex() group.MemberIndex { return 1 }
 
 // ---- driving -------------------------------------------------------------------
 
-func (w *world) waitFor(pred func() bool) bool {
+func (w *world) waitFor(pred func() bool) bool { return w.waitForT(pred, waitTimeout) }
+
+func (w *world) waitForT(pred func() bool, waitTimeout time.Duration) bool {
 	deadline := time.Now().Add(waitTimeout)
 	timer := time.AfterFunc(waitTimeout+time.Second, func() { w.mu.Lock(); w.cond.Broadcast(); w.mu.Unlock() })
 	defer timer.Stop()
@@ -306,7 +317,7 @@ func parseEvents(s string) ([]event, bool) {
 				return nil, false
 			}
 			out = append(out, event{t[0], a, b, 1})
-		case len(t) > 1 && t[0] == 'F':
+		case len(t) > 1 && (t[0] == 'F' || t[0] == 'B'):
 			p := strings.Split(t[1:], ".")
 			if len(p) != 3 {
 				return nil, false
@@ -317,7 +328,7 @@ func parseEvents(s string) ([]event, bool) {
 			if e1 != nil || e2 != nil || e3 != nil || a < 0 || a > 7 || b < 0 || c < 0 || c > 5000 {
 				return nil, false
 			}
-			out = append(out, event{'F', a, b, c})
+			out = append(out, event{t[0], a, b, c})
 		default:
 			return nil, false
 		}
@@ -355,6 +366,7 @@ func run(op string) (string, string) {
 
 	tags := map[string]bool{}
 	flooded := 0
+	lost := ""
 	w.mu.Lock()
 	// Initiate of state 0 must have been entered before anything is scripted
 	ok := w.waitFor(func() bool { return len(w.log) > 0 || w.closed }) && w.waitFor(func() bool { return w.quiescent(st0) })
@@ -401,6 +413,44 @@ func run(op string) (string, string) {
 			for i := 0; ok && i < e.cnt; i++ {
 				deliver(e)
 				ok = w.waitFor(func() bool { return w.quiescent(st0) })
+			}
+		case 'B':
+			ok = w.waitFor(func() bool { return w.quiescent(st0) })
+			if ok && e.cnt > 0 && !w.closed && !w.held && w.recvCtx != nil && w.recvCtx.Err() == nil {
+				tags["busyflood"] = true
+				w.holdNext = true
+				deliver(event{'m', e.typ, e.id, 1})
+				ok = w.waitFor(func() bool { return w.held || w.closed })
+				pushed, floodDone := 0, false
+				h := w.handler
+				w.enqueued += e.cnt - 1
+				go func() {
+					for i := 1; i < e.cnt; i++ {
+						h(&toyMsg{e.typ, e.id + i})
+						w.mu.Lock()
+						pushed++
+						w.cond.Broadcast()
+						w.mu.Unlock()
+					}
+					w.mu.Lock()
+					floodDone = true
+					w.cond.Broadcast()
+					w.mu.Unlock()
+				}()
+				fill := e.cnt - 1
+				if fill > 512 {
+					fill = 512 // asyncReceiveBuffer: the next handler call blocks until the loop runs again
+				}
+				ok = ok && w.waitFor(func() bool { return pushed >= fill || w.closed })
+				if w.held {
+					w.held = false
+					close(w.holdCh)
+				}
+				ok = ok && w.waitFor(func() bool { return floodDone || w.closed })
+				if ok && !w.waitForT(func() bool { return w.quiescent(st0) }, lostTimeout) {
+					lost = fmt.Sprintf("LOST consumed=%d delivered=%d", w.consumed, w.enqueued)
+					ok = false
+				}
 			}
 		case 'i':
 			ok = w.waitFor(func() bool { return w.quiescent(st0) })
@@ -458,6 +508,9 @@ func run(op string) (string, string) {
 	hist := append([]string(nil), w.hist...)
 	dropped := w.dropped
 	w.mu.Unlock()
+	if lost != "" {
+		return lost, "lost"
+	}
 	if hang {
 		return "HANG", "hang"
 	}
@@ -514,7 +567,7 @@ func run(op string) (string, string) {
 	}
 	obs := fmt.Sprintf("seq=%s out=%s hist=%s real=%s drop=%d log=%s", hx.JoinInts(seq), out, hx.JoinStrs(hist), realN, dropped, hx.JoinStrs(logCopy))
 	var tl []string
-	for _, t := range []string{"final", "ctx", "initerr", "nexterr", "moved", "moved2", "early", "late", "duringinit", "pending", "burst", "hold", "cancel", "flood"} {
+	for _, t := range []string{"final", "ctx", "initerr", "nexterr", "moved", "moved2", "early", "late", "duringinit", "pending", "burst", "hold", "cancel", "flood", "busyflood"} {
 		if tags[t] {
 			tl = append(tl, t)
 		}
@@ -634,6 +687,44 @@ func genFlood(r *hx.Rng) string {
 	return fmt.Sprintf("async %s %s", strings.Join(ss, ","), hx.JoinStrs(evs))
 }
 
+// genBusy: more messages than asyncReceiveBuffer arrive while the receive loop is busy inside one
+// Receive call; every one of them is needed by state t. A last state that never gets its message
+// keeps the machine alive, so every delivered message must have been consumed at the end.
+func genBusy(r *hx.Rng) string {
+	k := r.Range(1, 3)
+	t := r.Range(0, k-1)
+	n := r.Range(520, 700)
+	var ss []string
+	for j := 0; j < k; j++ {
+		need := r.Range(0, 1)
+		if j == t {
+			need = n
+		}
+		s := strconv.Itoa(need)
+		if r.Chance(1, 3) {
+			s += "g"
+		}
+		ss = append(ss, s)
+	}
+	ss = append(ss, "1")
+	var evs []string
+	if r.Chance(1, 2) {
+		evs = append(evs, "i")
+	}
+	if r.Chance(1, 2) {
+		evs = append(evs, fmt.Sprintf("m%d.%d", r.Intn(k), 1))
+	}
+	evs = append(evs, fmt.Sprintf("B%d.100.%d", t, n))
+	for j := 0; j < k; j++ {
+		evs = append(evs, "i")
+		if j != t {
+			evs = append(evs, fmt.Sprintf("m%d.%d", j, 20+j))
+		}
+	}
+	evs = append(evs, "i", "i")
+	return fmt.Sprintf("async %s %s", strings.Join(ss, ","), hx.JoinStrs(evs))
+}
+
 func gen(r *hx.Rng, n int, tier string) []string {
 	var ops []string
 	for i := 0; i < n; i++ {
@@ -654,6 +745,10 @@ func gen(r *hx.Rng, n int, tier string) []string {
 		}
 		if r.Chance(1, 15) {
 			ops = append(ops, genFlood(r))
+			continue
+		}
+		if r.Chance(1, 30) {
+			ops = append(ops, genBusy(r))
 			continue
 		}
 		style := r.Intn(4) // 0,1 fully waiting script; 2 bursts; 3 holds
@@ -695,9 +790,15 @@ func gen(r *hx.Rng, n int, tier string) []string {
 		}
 		ops = append(ops, fmt.Sprintf("async %s %s", strings.Join(ss, ","), hx.JoinStrs(evs)))
 	}
+	addToPool(ops)
+	return ops
+}
+
+func addToPool(ops []string) {
 	poolMu.Lock()
-	pool = map[string]*result{}
-	poolOps = nil
+	if pool == nil {
+		pool = map[string]*result{}
+	}
 	for _, op := range ops {
 		if _, dup := pool[op]; !dup {
 			pool[op] = &result{done: make(chan struct{})}
@@ -705,10 +806,50 @@ func gen(r *hx.Rng, n int, tier string) []string {
 		}
 	}
 	poolMu.Unlock()
-	return ops
+}
+
+// preload puts the op lines of -replay / -corpus files into the worker pool too, so that replays
+// (shrinking, the reverse-order pass) run as fast as generated cases.
+func preload() {
+	readOps := func(path string) []string {
+		b, err := os.ReadFile(path)
+		if err != nil {
+			return nil
+		}
+		var out []string
+		for _, l := range strings.Split(string(b), "\n") {
+			l = strings.TrimRight(l, "\r")
+			if l == "" || strings.HasPrefix(l, "#") {
+				continue
+			}
+			out = append(out, l)
+		}
+		return out
+	}
+	args := os.Args[1:]
+	for i := 0; i < len(args); i++ {
+		a := strings.TrimLeft(args[i], "-")
+		val := ""
+		if eq := strings.Index(a, "="); eq >= 0 {
+			a, val = a[:eq], a[eq+1:]
+		} else if i+1 < len(args) {
+			val = args[i+1]
+		}
+		switch a {
+		case "replay":
+			addToPool(readOps(val))
+		case "corpus":
+			files, _ := filepath.Glob(filepath.Join(val, "*.ops"))
+			sort.Strings(files)
+			for _, f := range files {
+				addToPool(readOps(f))
+			}
+		}
+	}
 }
 
 func main() {
+	preload()
 	hx.Main(&hx.Config{
 		Prop:         "C15",
 		Gen:          gen,
